@@ -49,8 +49,8 @@ MUTANTS = [
         "        if message_buffer and node and node.sleeping:\n            message_buffer.set_messages[\n                (message.node_id, message.child_id, message.message_type)\n            ] = message\n",
         "        if message_buffer and node and node.sleeping:\n            message_buffer.set_messages.setdefault(\n                (message.node_id, message.child_id, message.message_type), message\n            )\n")]),
     ("c07_flush_on_heartbeat_22", "C07 C19", [(P22,
-        "        node.heartbeat = int(message.payload)\n\n        return message\n",
-        "        node.heartbeat = int(message.payload)\n\n        return await cls._handle_sleep_buffer(gateway, message, message_buffer)\n")]),
+        "        node.heartbeat = heartbeat\n\n        return message\n",
+        "        node.heartbeat = heartbeat\n\n        return await cls._handle_sleep_buffer(gateway, message, message_buffer)\n")]),
     ("c07_presleep_forgets_sleeping", "C04", [(P22,
         "        node = gateway.nodes[message.node_id]\n        node.sleeping = True\n\n        return await cls._handle_sleep_buffer",
         "        node = gateway.nodes[message.node_id]\n        node.sleeping = node.sleeping or bool(message.payload)\n\n        return await cls._handle_sleep_buffer")]),
@@ -73,11 +73,23 @@ MUTANTS = [
         "        if key in message_buffer.internal_messages:\n            message_buffer.internal_messages.pop(key)\n        return await super().handle_presentation",
         "        if key in message_buffer.internal_messages and message.node_id == 0:\n            message_buffer.internal_messages.pop(key)\n        return await super().handle_presentation")]),
     ("c10_marker_before_write", "C10", [(P20,
-        "            ) not in message_buffer.internal_messages:\n                await gateway.send(presentation_message, message_buffer=False)\n            # Buffer one message to avoid spamming gateway.\n            await gateway.send(presentation_message, message_buffer=True)\n",
-        "            ) not in message_buffer.internal_messages:\n                await gateway.send(presentation_message, message_buffer=True)\n                await gateway.send(presentation_message, message_buffer=False)\n")]),
+        "                await gateway.send(presentation_message, message_buffer=False)\n                # Remember the request to avoid spamming gateway.\n                message_buffer.internal_messages[key] = presentation_message\n",
+        "                message_buffer.internal_messages[key] = presentation_message\n                await gateway.send(presentation_message, message_buffer=False)\n")]),
     ("c10_marker_keyed_by_child", "C10", [(P20,
-        "                presentation_message.node_id,\n                presentation_message.child_id,\n                presentation_message.message_type,\n            ) not in message_buffer.internal_messages:",
-        "                presentation_message.node_id if message.child_id != 7 else 0,\n                presentation_message.child_id,\n                presentation_message.message_type,\n            ) not in message_buffer.internal_messages:")]),
+        "            key = (\n                presentation_message.node_id,\n                presentation_message.child_id,\n                presentation_message.message_type,\n            )\n            if key not in",
+        "            key = (\n                presentation_message.node_id if message.child_id != 7 else 0,\n                presentation_message.child_id,\n                presentation_message.message_type,\n            )\n            if key not in")]),
+    ("c10_request_also_15", "C10 C19", [("src/aiomysensors/model/protocol/protocol_15.py",
+        "class IncomingMessageHandler(IncomingMessageHandler14):\n    \"\"\"Represent a message handler.\"\"\"\n",
+        "class IncomingMessageHandler(IncomingMessageHandler14):\n    \"\"\"Represent a message handler.\"\"\"\n\n    @classmethod\n    async def handle_set(cls, gateway, message, message_buffer):  # noqa: ANN001, ANN206, D102\n        from aiomysensors.exceptions import MissingNodeError  # noqa: PLC0415\n        from aiomysensors.model.message import Message  # noqa: PLC0415\n\n        try:\n            return await super().handle_set(gateway, message, message_buffer)\n        except MissingNodeError:\n            await gateway.send(Message(message.node_id, 255, 3, 0, 19), message_buffer=False)\n            raise\n")]),
+    ("c12_internal_parked_when_buffered", "C12", [(P14,
+        "        \"\"\"Process outgoing internal messages.\"\"\"\n        await gateway.transport.write(decoded_message)",
+        "        \"\"\"Process outgoing internal messages.\"\"\"\n        if message_buffer and message.message_type == 18:\n            message_buffer.internal_messages[(message.node_id, message.child_id, 18)] = message\n            return\n        await gateway.transport.write(decoded_message)")]),
+    ("c12_req_dropped_for_sleeping", "C12", [(P14,
+        "        \"\"\"Process outgoing req messages.\"\"\"\n        await gateway.transport.write(decoded_message)",
+        "        \"\"\"Process outgoing req messages.\"\"\"\n        node = gateway.nodes.get(message.node_id)\n        if message_buffer and node and node.sleeping:\n            return\n        await gateway.transport.write(decoded_message)")]),
+    ("c12_non_message_attribute_error", "C12", [(MSG,
+        "        except KeyError as err:\n            raise ValidationError(\"Not a valid Message instance\") from err",
+        "        except KeyError as err:\n            raise AttributeError(\"Not a valid Message instance\") from err")]),
     ("c11_len_nodes", "C11", [(P14, "        next_id = max(gateway.nodes) + 1 if gateway.nodes else 1",
         "        next_id = len(gateway.nodes) + 1 if 0 not in gateway.nodes else len(gateway.nodes)")]),
     ("c11_bound_ge", "C11", [(P14, "        if next_id > MAX_NODE_ID:", "        if next_id >= MAX_NODE_ID:")]),
